@@ -76,7 +76,7 @@ func (d *FloatListDecoder) Decode(b []byte) []float64 {
 }
 
 func (d *FloatListDecoder) readUint32(r io.Reader) (uint32, error) {
-	n, err := r.Read(d.buf[:4])
+	n, err := io.ReadFull(r, d.buf[:4])
 	if err != nil {
 		return 0, err
 	}
@@ -85,7 +85,7 @@ func (d *FloatListDecoder) readUint32(r io.Reader) (uint32, error) {
 }
 
 func (d *FloatListDecoder) readFloat64(r io.Reader) (float64, error) {
-	n, err := r.Read(d.buf)
+	n, err := io.ReadFull(r, d.buf)
 	if err != nil {
 		return 0, err
 	}
